@@ -16,8 +16,8 @@ func init() {
 			var jobs []run.Job
 			add := func(arch string, L, M, yield, fails int) {
 				classes := []int{0}
-				if yield+M >= 3 {
-					classes = []int{1, 2, 3, 4} // three delivered lines: split on the class of the first line
+				if yield+M >= 2 {
+					classes = []int{1, 2, 3, 4} // two or more delivered lines: split on the class of the first line (parallelism)
 				}
 				for _, cl := range classes {
 					jobs = append(jobs, run.Job{ID: fmt.Sprintf("parse/%s/L%d/M%d/yield%d/scanfails%d/class%d", arch, L, M, yield, fails, cl), Pkg: pkg, Harness: "H_Parse",
